@@ -72,6 +72,23 @@ func (v ValSpec) Bytes() []byte {
 		var owner [16]byte
 		owner[3] = byte(v.Tag)
 		return refESLEncode([]RefList{{Type: wireX509, Size: uint32(16 + len(pk.CertDER)), Sigs: []RefSig{{Owner: owner, Data: pk.CertDER}}}})
+	case "multidb":
+		// several lists with the same type and signature size, one hash each, then a certificate list
+		var ls []RefList
+		for i := 0; i < v.N; i++ {
+			var o [16]byte
+			o[0], o[5] = byte(v.Tag), byte(i)
+			ls = append(ls, RefList{Type: wireSHA256, Size: 48, Sigs: []RefSig{{Owner: o, Data: refHashDBEntry(byte(v.Tag), i)}}})
+		}
+		pk := Pool()[v.Tag%poolSize]
+		for i := 0; i < 2; i++ {
+			var o [16]byte
+			o[1] = byte(i + 1)
+			c := Pool()[(v.Tag+i)%2]
+			ls = append(ls, RefList{Type: wireX509, Size: uint32(16 + len(c.CertDER)), Sigs: []RefSig{{Owner: o, Data: c.CertDER}}})
+		}
+		_ = pk
+		return refESLEncode(ls)
 	case "bool":
 		return []byte{byte(v.N)}
 	case "str":
@@ -647,6 +664,21 @@ func ftWrite(x *X, i int, op ftOp, v efivar.Efivar, p string, c ftCfg, obj *efiv
 			}
 		}
 		x.Probe("short_write_device")
+		nopen := 0
+		for _, ev := range evs {
+			switch {
+			case ev.Call == cOpenFile && ev.mutating():
+				nopen++
+			case ev.Call == cWrite || ev.Call == cClose:
+			case ev.mutating():
+				x.Fail("fstrace.touches_nothing_else", i, kind, "after the device took a short count the library issued %s", ev.String())
+				return
+			}
+		}
+		if nopen > 1 {
+			x.Fail("fstrace.one_open", i, kind, "after the device took a short count the library opened the variable %d times", nopen)
+			return
+		}
 		if nw != 1 {
 			x.Fail("fstrace.one_write", i, kind, "the device accepted a short count and the library issued %d writes; each write is one SetVariable call (returned err=%v)", nw, err)
 			return
